@@ -18,7 +18,7 @@ Z3 == [h |-> Zero, f |-> Zero, b |-> Zero]
 MCBegin == \E kind \in {"humans", "animals"}, w \in {I(0), I(50)}, s0 \in Grid :
   LET g == IF w = I(0) THEN I(1) ELSE I(2) IN
   Begin([kind |-> kind, gSf |-> g, wSf |-> w, gCrop |-> g, wCrop |-> w, gMeat |-> g, wMeat |-> w, gScp |-> g, wScp |-> w,
-         gCs |-> g, wCs |-> w, gSw |-> g, wSw |-> w, swKcal |-> I(1), swInit |-> Zero, swInitArea |-> Zero,
+         gCs |-> g, wCs |-> w, gSw |-> g, wSw |-> w, wRetail |-> w, swKcal |-> I(1), swInit |-> Zero, swInitArea |-> Zero,
          swMinDens |-> I(1), swMaxDens |-> I(1), swLoss |-> Zero, sfInitial |-> s0, store |-> TRUE, popNeed |-> I(1),
          capH |-> Caps100, capF |-> Caps100, capB |-> Caps100])
 
